@@ -150,7 +150,7 @@ def main(ctx):
     # R ---------------------------------------------------------------------------------------
     res = ctx.path("res.ndjson")
     ctx.harness(["replay", "X01", "--cases", allcases, "--out", res, "--opt", "bindir=" + bindir,
-                 "--opt", "cmdevery=%d" % (6 if thorough else 25)], timeout=3000)
+                 "--opt", "cmdevery=%d" % (8 if thorough else 25), "--opt", "dfltevery=%d" % (4 if thorough else 1)], timeout=3000)
     summ = ctx.add_results(res)
     for need in ("join/lib/a/partners=2", "join/lib/a_b/partners=1", "join/lib/ab/partners=1", "join/lib/id_a/partners=1",
                  "join/cmd/dflt/partners=2", "join/cmd/a/partners=1", "join/cmd/ab/partners=1", "join/lib/z/partners=0",
@@ -163,10 +163,10 @@ def main(ctx):
     # T ---------------------------------------------------------------------------------------
     trace = ctx.path("trace.ndjson")
     parts = []
-    plan = [("join", 150 if thorough else 18, ["--opt", "big=%d" % (2 if thorough else 0)]),
-            ("demerge", 120 if thorough else 14, ["--opt", "big=%d" % (2 if thorough else 0)]),
-            ("split", 220 if thorough else 20, ["--opt", "long=%d" % (6 if thorough else 2)]),
-            ("split", 60 if thorough else 5, ["--opt", "indel=1"])]
+    plan = [("join", 300 if thorough else 18, ["--opt", "big=%d" % (3 if thorough else 0)]),
+            ("demerge", 250 if thorough else 14, ["--opt", "big=%d" % (3 if thorough else 0)]),
+            ("split", 500 if thorough else 20, ["--opt", "long=%d" % (12 if thorough else 2)]),
+            ("split", 150 if thorough else 5, ["--opt", "indel=1"])]
     for k, (sub, n, extra) in enumerate(plan):
         p = ctx.path("trace_%d.ndjson" % k)
         ctx.harness(["record", "X01", "--out", p, "--n", n, "--opt", "sub=" + sub, "--opt", "bindir=" + bindir] + extra, timeout=1800)
